@@ -48,7 +48,7 @@ Inductive ov :=
 | VN                    (* Python None *)
 | VB (b : bool)
 | VE (code : Z)         (* an exception, by kind *)
-| VA (x : Q)            (* a float computed by division: compared to relative 1e-9 *)
+| VA (x : Q)            (* a float computed by division: compared to relative 1e-9 (or absolute 1e-15: values that cancel to ~0) *)
 | VL (l : list ov).
 
 Fixpoint ov_eqb (a b : ov) {struct a} : bool :=
@@ -56,7 +56,7 @@ Fixpoint ov_eqb (a b : ov) {struct a} : bool :=
   | VZ x, VZ y => x =? y
   | VQ x, VQ y => Qeq_bool x y
   | VN, VN => true
-  | VA x, VA y => Qle_bool (Qabs (x - y) * (1000000000#1)) (Qabs y) || Qeq_bool x y
+  | VA x, VA y => Qle_bool (Qabs (x - y) * (1000000000#1)) (Qabs y) || Qeq_bool x y || Qle_bool (Qabs (x - y) * (1000000000000000#1)) (1#1)
   | VB x, VB y => Bool.eqb x y
   | VE x, VE y => x =? y
   | VL x, VL y =>
